@@ -3,11 +3,13 @@ T = "GeomV.C04."
 TIES = ["PointEquals", "NewBounds", "NewBoundsPoint", "Copy", "Empty", "ExtendPoint", "ExtendPoints", "ExtendPointss",
         "Extend", "Overlaps", "Within", "Intersection", "Area", "Centroid",
         "PointBounds", "MultiPointBounds", "LineStringBounds", "MultiLineStringBounds", "PolygonBounds", "MultiPolygonBounds", "Lens",
-        "PointsSimple", "PointsMultiLineString", "PointsPolygon", "PointsMultiPolygon"]
+        "PointsSimple", "PointsMultiLineString", "PointsPolygon", "PointsMultiPolygon", "PointsBounds",
+        "CollectionLenBounds", "PointsCollection"]
 TIE_MODULES = [T + "Ties." + n for n in TIES]
 SRC_DEPS = {"Overlaps": ["Overlaps"], "Intersection": ["Intersection"], "Extend": ["Extend"],
             "Basic": ["Empty", "Copy", "NewBounds", "NewBoundsPoint", "ExtendPoints"],
-            "Points": ["PointsSimple", "PointsMultiLineString", "PointsPolygon", "PointsMultiPolygon", "Lens"]}
+            "Points": ["PointsSimple", "PointsMultiLineString", "PointsPolygon", "PointsMultiPolygon", "Lens"],
+            "Collection": ["CollectionLenBounds", "PointsCollection", "PointsBounds", "Lens", "Extend", "NewBounds"]}
 SRC_MODULES = [T + "Src." + n for n in SRC_DEPS]
 CFG = {
     "id": "C04",
@@ -38,11 +40,19 @@ CFG = {
         # … and the Points() closures rendered from the source (loops with receiver-derived fuel) = the model's state machines
         "C04_tie_Point_Points", "C04_tie_MultiPoint_Points", "C04_tie_LineString_Points", "C04_tie_MultiLineString_Points",
         "C04_tie_Polygon_Points", "C04_tie_MultiPolygon_Points",
+        # … (*Bounds).Points (defer + switch) = nextB; GeometryCollection.Len/Bounds/Points rendered with the calls on interface
+        # values and on the captured func value as parameters = the collection case of lenG/boundsG/init/next when
+        # instantiated with the model's dispatch (Points: under the invariant "p was made from gc[j]", which the rendered
+        # constructor establishes and every call preserves)
+        "C04_tie_Bounds_Points", "C04_tie_GeometryCollection_Len", "C04_tie_GeometryCollection_Bounds",
+        "C04_tie_GeometryCollection_Points",
         # the box theorems restated for the regenerated definitions
         "C04_overlaps_src", "C04_intersection_src", "C04_extend_join_src", "C04_extend_laws_src", "C04_empty_src",
         "C04_copy_src", "C04_newBounds_src", "C04_extendPoints_src",
         "C04_points_src_MultiPoint", "C04_points_src_LineString", "C04_points_src_MultiLineString",
         "C04_points_src_Polygon", "C04_points_src_MultiPolygon",
+        "C04_points_src_Bounds", "C04_len_src_GeometryCollection", "C04_points_src_GeometryCollection",
+        "C04_bounds_src_GeometryCollection",
     ]],
     "trusted_base": [
         "Lean 4.33.0 kernel; axioms of every theorem printed by #print axioms must be within {propext, Classical.choice, Quot.sound}",
